@@ -103,6 +103,8 @@ def check_case(ctx, case):
             missing = [e for e in exp if e not in got][:2]
             ctx.fail("inherited features differ from the positional expectation: unexpected {} ; missing {}".format(
                 extra, missing), case)
+    if ctx.evaluations % 3 == 0:
+        asm.lifecycle(ctx, {k: v for k, v in case.items() if k != "meta"}, edit=True)
     ctx.note("kept", kept)
     ctx.note("dropped", dropped)
     ctx.case({k: v for k, v in case.items() if k != "meta"}, nontrivial=kept > 0 and dropped > 0)
